@@ -238,7 +238,7 @@ def gen_blocks(c, depth, n, in_item=False, in_quote=False, tight=False):
         elif k < 62 and not in_item:
             b = N('icode', lines=[t.choice([x for x in CODE_LINES if x.strip()]) for _ in range(1 + t.below(3))])
         elif k < 73 and depth < 3:
-            b = N('quote', children=gen_blocks(c, depth + 1, 1 + t.below(3), False, True), markers=None)
+            b = N('quote', children=gen_blocks(c, depth + 1, 1 + t.below(3), False, True) or [_filler()], markers=None)
         elif k < 88 and depth < 3:
             b = gen_list(c, depth, in_quote, nested=in_item)
         elif k < 94:
@@ -251,6 +251,11 @@ def gen_blocks(c, depth, n, in_item=False, in_quote=False, tight=False):
             b.a['indent'] = 0
         out.append(b)
     return fix_seq(c, out)
+
+
+def _filler():
+    """stands in for content that the block budget cut off"""
+    return N('para', inl=[N('text', s='filler')], indent=0)
 
 
 def gen_atx(c):
@@ -373,9 +378,9 @@ def gen_list(c, depth, in_quote, nested=False):
         if t.chance(14) and 'empty_item' not in c.exclude:
             children = []     # empty item
         elif loose:
-            children = gen_blocks(c, depth + 1, 1 + t.below(3), True, in_quote)
+            children = gen_blocks(c, depth + 1, 1 + t.below(3), True, in_quote) or [_filler()]
         else:
-            children = gen_blocks(c, depth + 1, 1, True, in_quote, tight=True)
+            children = gen_blocks(c, depth + 1, 1, True, in_quote, tight=True) or [_filler()]
             if t.chance(70) and depth < 2 and c.blocks < c.max_blocks:
                 c.blocks += 1
                 sub = gen_list(c, depth + 1, in_quote, nested=True)
@@ -541,7 +546,7 @@ def gen_document(t, opts=None):
     c = Ctx(t, opts)
     if c.refs:
         plan_labels(c)
-    top = gen_blocks(c, 0, 1 + t.below(opts.get('top_blocks', 5)))
+    top = gen_blocks(c, 0, 1 + t.below(opts.get('top_blocks', 5))) or [_filler()]
     if c.refs:
         place_definitions(c, top)
     if top and top[-1].kind == 'fence' and not c.canonical and t.chance(60):
